@@ -1,6 +1,7 @@
 package simrt
 
 import (
+	"bytes"
 	"errors"
 	"fmt"
 	"sort"
@@ -156,7 +157,7 @@ func (propC10) Draw(rt *rapid.T, w *WorldDesc, mode string) *Plan {
 		op.App.Kind = "respond"
 		switch src {
 		case "err-plain":
-			op.App = AppBehaviour{Kind: "err-plain", Text: rapid.SampledFrom([]string{"boom", "quota exceeded é", "x: y: z", ""}).Draw(rt, l+".text")}
+			op.App = AppBehaviour{Kind: "err-plain", Text: rapid.SampledFrom([]string{"boom", "quota exceeded é", "x: y: z", "", `say "hi"`, `back\\slash`, "line\nbreak", `","x":"y`, "tab\there"}).Draw(rt, l+".text")}
 		case "err-sebuf":
 			op.App = AppBehaviour{Kind: "err-sebuf", Text: rapid.SampledFrom([]string{"not allowed", "日本語", "a\"b"}).Draw(rt, l+".text")}
 		case "err-validation":
@@ -503,6 +504,13 @@ func (propC10) Check(k *Kernel, cov *Coverage) *Violation {
 				if strings.Join(violationSet(cve), "|") != strings.Join(violationSet(sve), "|") {
 					return &Violation{Class: "client-violations-differ", Signature: sig("client-violations-differ", ""),
 						Detail: fmt.Sprintf("op %d: server sent %v, client error carries %v", c.Op.ID, violationSet(sve), violationSet(cve))}
+				}
+			} else if src == "err-custom" && fam == "json" && !hooked && len(bytes.TrimSpace(rbody)) > 2 {
+				// a custom error message is neither a violation list nor {message}: the client must
+				// surface the status and the body
+				if !strings.Contains(c.Err.Error(), fmt.Sprint(status)) || !strings.Contains(c.Err.Error(), strings.TrimSpace(string(rbody))) {
+					return &Violation{Class: "client-error-loses-status", Signature: sig("client-error-loses-status", "custom"),
+						Detail: fmt.Sprintf("op %d: server answered %d with the custom error body %q, the Go client returned %T %q", c.Op.ID, status, truncBytes(rbody), c.Err, c.Err.Error())}
 				}
 			} else if e, ok := want.(*sebufhttp.Error); ok && status != 400 {
 				if errors.As(c.Err, &ce) {
